@@ -34,7 +34,7 @@ type metaWorld struct {
 
 func newMetaWorld() *metaWorld {
 	L := lua.NewState()
-	ctx, cancel := context.WithTimeout(context.Background(), 20*time.Second)
+	ctx, cancel := hangCtx(20 * time.Second)
 	L.SetContext(ctx)
 	w := &metaWorld{L: L, objs: map[string]lua.LValue{}, names: map[interface{}]string{}, chunks: map[string]*lua.LFunction{},
 		fnRet: map[string]lua.LValue{}, cancel: cancel}
